@@ -284,6 +284,52 @@ func genStore() (string, error) {
 		}
 	}
 	fmt.Fprintf(&b, "/-- `controller/block.go`: the store calls `IndexQC` / `IndexBlock` / `Commit` in source order, per function -/\ndef controllerCommitPath : List (String × String) := %s\n\n", pairList(ctrl))
+	// 8. the process-wide block cache of store/indexer.go: its key type, and in every reader the order of
+	//    the view lookup (t.db.Get(heightKey)), the cache calls and getBlock
+	ipath := filepath.Join(*repo, "store/indexer.go")
+	isrc, err := os.ReadFile(ipath)
+	if err != nil {
+		return "", err
+	}
+	ifile, err := g.ParseFile(ipath)
+	if err != nil {
+		return "", err
+	}
+	text := func(n ast.Node) string {
+		return strings.Join(strings.Fields(string(isrc[ifile.Fset.Position(n.Pos()).Offset:ifile.Fset.Position(n.End()).Offset])), " ")
+	}
+	cacheDecl := ""
+	for _, d := range ifile.AST.Decls {
+		gd, ok := d.(*ast.GenDecl)
+		if !ok {
+			continue
+		}
+		for _, sp := range gd.Specs {
+			vs, ok := sp.(*ast.ValueSpec)
+			if !ok || len(vs.Names) == 0 || vs.Names[0].Name != "blockCache" || len(vs.Values) == 0 {
+				continue
+			}
+			cacheDecl = text(vs.Values[0])
+		}
+	}
+	if cacheDecl == "" {
+		return "", fmt.Errorf("store/indexer.go: blockCache declaration not found")
+	}
+	fmt.Fprintf(&b, "/-- `store/indexer.go`: how the process-wide block cache is created (key type!) -/\ndef blockCacheDecl : String := %q\n", cacheDecl)
+	var cacheUse [][2]string
+	for _, fn := range []string{"IndexBlock", "GetBlockByHeight", "GetBlockHeaderByHeight", "getBlockForPage", "DeleteBlockForHeight", "GetBlockByHash", "GetQCByHeight"} {
+		fd := ifile.FindFunc("Indexer", fn)
+		if fd == nil || fd.Body == nil {
+			return "", fmt.Errorf("store/indexer.go: Indexer.%s not found", fn)
+		}
+		for _, c := range calls(fd) {
+			f := g.ExprText(c.Fun)
+			if strings.HasPrefix(f, "blockCache.") || f == "t.db.Get" || f == "t.getBlock" || f == "t.GetBlockByHeight" {
+				cacheUse = append(cacheUse, [2]string{fn, text(c)})
+			}
+		}
+	}
+	fmt.Fprintf(&b, "/-- per function, in source order: the view lookups `t.db.Get(…)`, the cache calls `blockCache.*(…)`, `t.getBlock(…)` -/\ndef blockCacheUse : List (String × String) := %s\n\n", pairList(cacheUse))
 	b.WriteString("end Canopy.Gen.Store\n")
 	return b.String(), nil
 }
